@@ -1198,6 +1198,13 @@ func (fc *fnCtx) mblock(stmts []ast.Stmt, lvl int) (string, error) {
 		}
 		var rs []string
 		for ri, r := range x.Results {
+			if vals, handled, err := fc.extReturnVals(ri, r); handled { // wp dmmirror: flattened []struct result
+				if err != nil {
+					return "", err
+				}
+				rs = append(rs, vals...)
+				continue
+			}
 			if st := fc.m.structRes[ri]; st != nil {
 				vals, err := fc.structValue(st, r)
 				if err != nil {
@@ -2986,6 +2993,9 @@ func genFuncM(p *packages.Package, e entry) (string, error) {
 	var params []string
 	var sparams []sparam
 	nplain := 0
+	if ferr := fc.extFlatten(fd); ferr != nil { // wp dmmirror (ext_dmmirror_flat.go): nested objects -> flat locals
+		return "", ferr
+	}
 	params, gerr := fc.extGlobals(fd, params) // wp dmmirror: init-filled package-level tables are leading parameters
 	if gerr != nil {
 		return "", gerr
@@ -3010,6 +3020,7 @@ func genFuncM(p *packages.Package, e entry) (string, error) {
 					if isPtr {
 						fc.declare(n.Name+"_isNil", "Bool") // `x == nil`
 					}
+					fc.extFlatParams(n.Name) // wp dmmirror: nested structs / slices of structs below this parameter
 				}
 				continue
 			}
@@ -3078,6 +3089,13 @@ func genFuncM(p *packages.Package, e entry) (string, error) {
 		t := p.TypesInfo.TypeOf(fl.Type)
 		lt, err := leanTypeM(t)
 		drop := false
+		fc.extNoteResult(t, len(fl.Names)) // wp dmmirror
+		if lts, ok := fc.extResultTypes(t); ok && err != nil && len(fl.Names) <= 1 { // wp dmmirror: []struct as its field lists
+			fc.m.dropRes = append(fc.m.dropRes, false)
+			rts = append(rts, lts...)
+			named = append(named, fl.Names...)
+			continue
+		}
 		if err != nil {
 			if t.String() == "error" || isErrorType(t) {
 				lt = "Bool"
@@ -3176,6 +3194,7 @@ func genFuncM(p *packages.Package, e entry) (string, error) {
 		}
 		params = append(params[:sp.at], append(fps, params[sp.at:]...)...)
 	}
+	params = fc.extNestedParams(fd, params) // wp dmmirror
 	if fc.m.fuelUsed {
 		params = append([]string{"(fuel : Nat)"}, params...)
 	}
